@@ -234,6 +234,21 @@ def replay_by_rerun(run_fn):
     return replay
 
 
+def replay_shown_then_rerun(run_fn):
+    """print what the recorded object / bytes give now (informative), then decide by re-running the sweep on the recorded
+    specification: objects are drawn through the public constructors, so an object that only the changed code could build is
+    not held against the unchanged tree"""
+    rerun = replay_by_rerun(run_fn)
+
+    def replay(ctx: Ctx, doc: dict) -> int:
+        try:
+            replay_generic(ctx, doc)
+        except Exception as ex:  # noqa: BLE001
+            print("  (exact replay not possible:", repr(ex)[:160], ")")
+        return rerun(ctx, doc)
+    return replay
+
+
 def replay_c17(ctx: Ctx, doc: dict) -> int:
     """the recorded (edited) specification: acceptance by the real generator, by the model, verdict of the declarative rules"""
     files = gencheck.files_from_doc(doc)
